@@ -453,8 +453,18 @@ func spec_sent(i int) Token { panic("spec") }
 //@ ensures [C13] stepOK(l, DirectiveState, next, old(l.end))
 //@ ensures [C13] sent >= old(sent) && allTOKS(l, old(sent))
 
+// the keyword table of the lexer, pinned statement by statement: each directive word produces its own token kind
+// (a swapped pair would silently turn %right into %left, %type into %token, ...)
 //@ func DirectiveOtherState
-//@ props C13
+//@ props C13 C04 C07 C11 C12
+//@ before_stmt [C04] `if l.acceptOnlyAlphaWord("left") { l.emit(LeftAssoc) }` true
+//@ before_stmt [C04] `if l.acceptOnlyAlphaWord("right") { l.emit(RightAssoc) }` true
+//@ before_stmt [C04] `if l.acceptOnlyAlphaWord("nonassoc") { l.emit(NoneAssoc) }` true
+//@ before_stmt [C04] `if l.acceptOnlyAlphaWord("prec") { l.emit(PrecDirective) }` true
+//@ before_stmt [C04] `if l.acceptOnlyAlphaWord("precedence") { l.emit(Precedence) }` true
+//@ before_stmt [C11,C07] `if l.acceptOnlyAlphaWord("token") { l.emit(TokenDirective) }` true
+//@ before_stmt [C07,C12] `if l.acceptOnlyAlphaWord("type") { l.emit(TypeDirective) }` true
+//@ before_stmt [C12] `if l.acceptOnlyAlphaWord("start") { l.emit(StartDirective) }` true
 //@ results next
 //@ modifies l.start, l.startLoc, l.end, l.width, l.prev, l.loc, sent
 //@ requires wfL(l)
